@@ -434,6 +434,8 @@ class Ctl(object):
             r = str(rep.get("reason"))
             if "already running " in r:
                 return r.split("already running ", 1)[1].split(" command")[0]
+            if "restarting" in r:
+                return "arbiter_restart (arbiter is restarting)"
             return r
         return None
 
